@@ -9,6 +9,7 @@ import (
 
 	"github.com/dolthub/go-mysql-server/internal/regex"
 	"github.com/dolthub/go-mysql-server/vh/internal/fx"
+	"github.com/dolthub/go-mysql-server/vh/internal/kf"
 	"github.com/dolthub/go-mysql-server/vh/internal/stats"
 	"pgregory.net/rapid"
 )
@@ -233,8 +234,8 @@ func TestC33Pkg(t *testing.T) {
 				}
 				st.Class("ref-compared")
 			}
-			if n == 0 && nullable {
-				st.Excluded("C33-replace-empty-subject")
+			if n == 0 && nullable && kf.Listed(kfReplaceEmpty) {
+				st.Excluded(kfReplaceEmpty)
 			} else if pos <= n || n == 0 {
 				rep := rapid.SampledFrom(replacements).Draw(rt, "rep")
 				occR := rapid.IntRange(0, 3).Draw(rt, "occR")
